@@ -115,6 +115,8 @@ def run(tier):
     for _ in range(max(0, n - len(seen))):
         rep.ok("dereference in state CHECKED", sample=False)
     check_ownership(rep, funcs, rel)
+    import borrow
+    borrow.rule(rep, funcs, lambda t: bool(ITER.search(t or "")), rel, 0)
     rep.floor("iterator dereference sites", 150)
     rep.floor("summaries: helpers establishing CHECKED", 2)
     rep.assumptions += ["a necessary condition only: other sources of undefined behaviour and termination are not decided",
